@@ -1,5 +1,4 @@
 use std::error::Error;
-use std::iter::Scan;
 use std::slice::Iter;
 
 #[cfg(feature = "polars")]
@@ -98,13 +97,6 @@ unsafe impl<T> TrustedLen for std::ops::Range<T> where std::ops::Range<T>: Itera
 unsafe impl<T> TrustedLen for std::ops::RangeInclusive<T> where std::ops::RangeInclusive<T>: Iterator
 {}
 unsafe impl<A: TrustedLen> TrustedLen for std::iter::StepBy<A> {}
-
-unsafe impl<I, St, F, B> TrustedLen for Scan<I, St, F>
-where
-    F: FnMut(&mut St, I::Item) -> Option<B>,
-    I: TrustedLen + Iterator<Item = B>,
-{
-}
 
 #[cfg(feature = "ndarray")]
 unsafe impl<A, D: tea_deps::ndarray::Dimension> TrustedLen
